@@ -72,6 +72,10 @@ type Property struct {
 	Parallel    int           // max worker processes (default 16)
 	WorkerProcs int           // GOMAXPROCS of a worker (0 = 2; -1 = leave alone)
 	CaseTimeout time.Duration // watchdog per case (never a verdict by itself)
+	// ScheduleDependent: violations of this property depend on the interleaving, so a violation whose
+	// witness is a recorded history or a stored state stays a violation when isolated replays do not
+	// show it again (hang diagnoses are excluded: they must reproduce).
+	ScheduleDependent bool
 	// PeerWaitFrames: top frames under which a goroutine in state "select" is waiting for a peer
 	// inside the same process (loopback gRPC streams); used by the deadlock certificate only.
 	PeerWaitFrames []string
